@@ -906,25 +906,14 @@ func (f *Flooder) cleanupNodeInfoCache(now time.Time, expiry time.Duration) {
 }
 
 // cleanupSleepCmdCache removes expired entries from the sleep command cache.
+// Live entries are never evicted: a forgotten command could be replayed while
+// its timestamp is still valid. The size limit is enforced on insertion
+// (markSleepCmdSeen) instead.
 // Must be called with f.sleepCmdMu held.
 func (f *Flooder) cleanupSleepCmdCache(now time.Time, expiry time.Duration) {
 	for key, entry := range f.sleepCmdSeenCache {
 		if now.Sub(entry.SeenAt) > expiry {
 			delete(f.sleepCmdSeenCache, key)
-		}
-	}
-
-	// If still too large, remove oldest entries
-	excess := len(f.sleepCmdSeenCache) - f.cfg.MaxSeenCacheSize
-	if excess <= 0 {
-		return
-	}
-	removed := 0
-	for key := range f.sleepCmdSeenCache {
-		delete(f.sleepCmdSeenCache, key)
-		removed++
-		if removed >= excess {
-			break
 		}
 	}
 }
@@ -1235,6 +1224,14 @@ func (f *Flooder) markSleepCmdSeen(originAgent identity.AgentID, commandID uint6
 		if existing.SeenFrom != fromPeer {
 			existing.SeenAt = time.Now()
 		}
+		return false
+	}
+
+	// Cache full: refuse the command rather than forget a live entry.
+	if f.cfg.MaxSeenCacheSize > 0 && len(f.sleepCmdSeenCache) >= f.cfg.MaxSeenCacheSize {
+		f.logger.Warn("sleep command cache full, command ignored",
+			"origin", originAgent.ShortString(),
+			"command_id", commandID)
 		return false
 	}
 
